@@ -383,10 +383,10 @@ pub fn run(ctx: &Ctx) -> (Report, Meta) {
     let mut rep = run_cases(ctx, ctx.tier.pick(150, 6000), &synth_case);
     let mut c2 = ctx.clone();
     c2.seed ^= 0x11d;
-    rep.merge(run_cases(&c2, ctx.tier.pick(40, 1200), &|c, i, r, rep| disk_case(c, i + 500_000, r, rep)));
+    rep.merge({ let mut cb = c2.clone(); cb.case_base = 500_000; run_cases(&cb, ctx.tier.pick(40, 1200), &|c, i, r, rep| disk_case(c, i + 500_000, r, rep)) });
     let mut c3 = ctx.clone();
     c3.seed ^= 0x11e;
-    rep.merge(run_cases(&c3, ctx.tier.pick(16, 400), &|c, i, r, rep| pruned_parent_case(c, i + 900_000, r, rep)));
+    rep.merge({ let mut cb = c3.clone(); cb.case_base = 900_000; run_cases(&cb, ctx.tier.pick(16, 400), &|c, i, r, rep| pruned_parent_case(c, i + 900_000, r, rep)) });
     let meta = Meta {
         level: "exploration",
         rule: "case = (parent state(s), current state) related by generated edits that satisfy the property's premise (every content change also changes size or mtime): content change with/without size change, touch, chmod, rename, duplicate, add/remove, type change file<->dir<->symlink; realised synthetically (explicit metadata, ctime recorded or absent, inodes 0 / stable / changed, one or two explicit parents, ignore-ctime, ignore-inode, skip-if-unchanged) and on disk (real mtime/ctime/inode, edits applied in place, parent found by group). Oracle: tree id of the parent-based backup == tree id of a forced backup of the same source on a clone of the same store; the snapshot reads back equal to the source model; skip_if_unchanged writes a snapshot iff the tree differs from the parent's; files_unmodified <= files that kept type, size and mtime. Partly pruned parents: one data pack removed + repair_index, then a parent-based backup must re-read, read back correctly and check clean. distinct_nontrivial = distinct (realisation, edit kind, parent count, ctime mode)".to_string(),
